@@ -470,6 +470,7 @@ def index_of_refraction(compound, density=None, natural_density=None,
     if energy is not None:
         wavelength = xray_wavelength(energy)
     assert wavelength is not None, "scattering calculation needs energy or wavelength"
+    wavelength = numpy.asarray(wavelength)
     f1, f2 = xray_sld(compound,
                       density=density, natural_density=natural_density,
                       wavelength=wavelength)
@@ -511,8 +512,7 @@ def mirror_reflectivity(compound, density=None, natural_density=None,
         wavelength = xray_wavelength(energy)
     assert wavelength is not None, "scattering calculation needs energy or wavelength"
     angle = radians(angle)
-    if numpy.isscalar(wavelength):
-        wavelength = numpy.array([wavelength])
+    wavelength = numpy.atleast_1d(wavelength)
     if numpy.isscalar(angle):
         angle = numpy.array([angle])
     nv = index_of_refraction(compound=compound,
